@@ -200,7 +200,7 @@ def first_use(jobs, nthreads=4):
             else:
                 p = None if got == tuple(exp) else "expected %r" % (tuple(exp),)
             if p:
-                bad.append("%s%r -> %r when %d threads make the first calls of a freshly imported package together: %s" % (path, tuple(args), got, nthreads, p))
+                bad.append("%s%r -> %r in a freshly imported copy of the package whose first calls are made by %d threads at once: %s" % (path, tuple(args), got, nthreads, p))
                 return
 
     ts = [threading.Thread(target=work, args=(k,)) for k in range(nthreads)]
